@@ -19,10 +19,19 @@ import SqlframeModel.Gen.Clauses
 namespace Sqlframe
 open Gen
 
+/-- the body of one frozen CTE of the statement: an ordinary SELECT block, or the UNION [ALL] `unpivot` builds -/
+inductive CteBody
+  | block (b : Block)
+  | unpivot (ids vals : List Name) (var val : Name) (distinct : Bool)
+  deriving Repr
+
 structure DF where
   src : Table
   blk : Block
   last : Op
+  /-- ghost state: the CTEs frozen so far, oldest first (each reads the one before it; the first reads the input).
+      Nothing below consults it; `Props/C03Text.lean` shows `src` is always its value. -/
+  hist : List CteBody := []
   deriving Repr
 
 def DF.eval (d : DF) : Table := evalBlock d.blk d.src
@@ -36,7 +45,7 @@ def DF.init (T : Table) : DF := { src := T, blk := { sel := identSel T.cols }, l
 /-- `_convert_leaf_to_cte` -/
 def DF.wrap (d : DF) : DF :=
   let T := d.eval
-  { src := T, blk := { sel := identSel T.cols }, last := d.last }
+  { src := T, blk := { sel := identSel T.cols }, last := d.last, hist := d.hist ++ [.block d.blk] }
 
 /-- `operation(op).wrapper` around a method body; `none` = undecorated method -/
 def wrapper (tag : Option Op) (body : DF → DF) (d : DF) : DF :=
@@ -174,7 +183,8 @@ def DF.apply (d : DF) : Step → DF
         (fun d =>
           let U := unpivotTable d.eval ids vals var val
           let U := if unpivotDistinct then { U with rows := dedup U.rows } else U
-          { src := U, blk := { sel := identSel U.cols }, last := d.last }) d
+          { src := U, blk := { sel := identSel U.cols }, last := d.last,
+            hist := d.hist ++ [.block d.blk, .unpivot ids vals var val unpivotDistinct] }) d
 
 def DF.run (d : DF) (steps : List Step) : DF := steps.foldl DF.apply d
 
